@@ -24,7 +24,7 @@ def simplifyF (flat : Array Float) (stride : Nat) (thr : Float) : List Nat :=
 
 def handle (op : String) (inp go : Sexp) : Option Reply :=
   match op, inp with
-  | "C20.simplify", .list [st, thr, fl] => do
+  | "C20.simplify", .list [st, thr, fl] | "C20.simplifyx", .list [st, thr, fl] => do
       let stride ← nat st
       let thrF ← fltBits thr
       let flat ← listOf fltBits fl
@@ -44,7 +44,9 @@ def handle (op : String) (inp go : Sexp) : Option Reply :=
         match ratBits thr, xy, go with
         | some t, some pts, .list [g1, g2] =>
           (match listOf nat g1, listOf nat g2 with
-           | some i1, some i2 => C20.verdict pts.toArray t i1 i2
+           | some i1, some i2 =>
+               let scale : Rat := pts.foldl (fun m p => max m (max (Exact.abs p.1) (Exact.abs p.2))) 1
+               C20.verdict pts.toArray t i1 i2 (if op == "C20.simplifyx" then scale * mkRat 1 1000000000 else 0)
            | _, _ => "FAIL unreadable output")
         | some _, some _, _ => "FAIL SimplifyFlatCoords panicked"
         | _, _, _ => "na"
